@@ -739,7 +739,7 @@ class Interp:
                 k = k.item()
             try:
                 o[k] = v
-            except IndexError as e:
+            except (IndexError, RuntimeError) as e:
                 raise RaiseEx(e)
             return
         if isinstance(o, (list, dict)):
@@ -1683,6 +1683,8 @@ def merge_values(c, a, b):
     if (is_sym(a) or isinstance(a, (int, float, bool))) and (is_sym(b) or isinstance(b, (int, float, bool))):
         if not is_sym(a) and not is_sym(b) and type(a) == type(b) and a == b:
             return a
+        if sym._is_inf(a) or sym._is_inf(b):
+            return NOMERGE                     # infinity has no term: fork instead of merging
         return s_ite(c, a, b)
     if isinstance(a, tuple) and isinstance(b, tuple) and len(a) == len(b):
         out = []
